@@ -23,7 +23,7 @@ def build():
     return True, ""
 
 
-def run_native(spec_txt, timeout_s=20):
+def run_native(spec_txt, timeout_s=6):
     try:
         p = subprocess.run([BIN], input=spec_txt, stdout=subprocess.PIPE, stderr=subprocess.PIPE, text=True, timeout=timeout_s)
     except subprocess.TimeoutExpired:
@@ -65,28 +65,52 @@ def search(kind, n, origins, prefill, threads, after, segs, symptom, max_runs=40
     ok, err = build()
     if not ok: return None, "replayer does not build: " + err, 0
     tried = 0
+    import time as _time
+    deadline = _time.time() + float(os.environ.get("VERIF_REPLAY_BUDGET_S", "240"))
+    class _OutOfTime(Exception): pass
     def attempt(sg):
         nonlocal tried
+        if _time.time() > deadline: raise _OutOfTime()
         tried += 1
         h = run_native(spec_text(kind, n, origins, prefill, threads, after, sg))
         s = symptom(h)
         return (s, h)
     base = [list(x) for x in segs]
-    s, h = attempt(base)
-    if s: return {"segments": base, "history": h, "symptom": s}, "", tried
+    # phase 1: the model schedule and small perturbations of it (at most a quarter of the time budget)
+    full_deadline = deadline; deadline = _time.time() + (full_deadline - _time.time()) / 4
+    try: r_ = _controlled(base, attempt, max_runs, 0)
+    except _OutOfTime: r_ = None
+    if r_: return r_, "", tried
+    # phase 2: a short free-running stress (windows of a few instructions that no yield hook can split)
+    found, why2, rounds = stress(kind, n, origins, prefill, threads, after, symptom, rounds=4000, timeout_s=30)
+    if found: return found, "", tried + rounds
+    # phase 3: grid over the first two context switches
+    deadline = full_deadline
+    try: r_ = _controlled(base, attempt, 0, grid, grid_only=True)
+    except _OutOfTime: r_ = None
+    if r_: return r_, "", tried
+    found, why2, rounds = stress(kind, n, origins, prefill, threads, after, symptom)
+    if found: return found, "", tried + rounds
+    return None, "symptom not reproduced natively in %d controlled runs; %s" % (tried, why2), tried
+
+
+def _controlled(base, attempt, max_runs, grid, grid_only=False):
+    tried = 0
     deltas = [-1, 1, 2, -2, 3]
-    for i in range(len(base)):
+    if not grid_only:
+        s, h = attempt(base)
+        if s: return {"segments": base, "history": h, "symptom": s}
+    for i in (range(len(base)) if not grid_only else []):
         for d in deltas:
             sg = [list(x) for x in base]; sg[i][1] = max(0, sg[i][1] + d)
             s, h = attempt(sg)
-            if s: return {"segments": sg, "history": h, "symptom": s}, "", tried
-    for i, j in itertools.combinations(range(len(base)), 2):
+            if s: return {"segments": sg, "history": h, "symptom": s}
+    for i, j in (itertools.combinations(range(len(base)), 2) if not grid_only else []):
         for d1 in deltas[:3]:
             for d2 in deltas[:3]:
-                if tried >= max_runs: break
                 sg = [list(x) for x in base]; sg[i][1] = max(0, sg[i][1] + d1); sg[j][1] = max(0, sg[j][1] + d2)
                 s, h = attempt(sg)
-                if s: return {"segments": sg, "history": h, "symptom": s}, "", tried
+                if s: return {"segments": sg, "history": h, "symptom": s}
     # grid over the first two context switches (the model counts visible operations, the hooks sit before statements: the two
     # counts can drift apart over a long segment); the remaining segments run their thread to completion, in the model's order
     if len(base) >= 2 and grid > 0:
@@ -95,10 +119,8 @@ def search(kind, n, origins, prefill, threads, after, segs, symptom, max_runs=40
         for a, b2 in order:
             sg = [[base[0][0], a], [base[1][0], b2]] + rest
             s, h = attempt(sg)
-            if s: return {"segments": sg, "history": h, "symptom": s}, "", tried
-    found, why2, rounds = stress(kind, n, origins, prefill, threads, after, symptom)
-    if found: return found, "", tried + rounds
-    return None, "symptom not reproduced natively in %d controlled runs; %s" % (tried, why2), tried
+            if s: return {"segments": sg, "history": h, "symptom": s}
+    return None
 
 
 def stress(kind, n, origins, prefill, threads, after, symptom, rounds=20000, timeout_s=120):
